@@ -201,14 +201,14 @@ func (r *Run) Finish(coverage map[string]any, assumptions []string) {
 	sb, _ := json.Marshal(summary)
 	fmt.Printf("%s %s: violations=%d known=%d wall=%.1fs %s\n", r.ID, r.Tier, len(r.viols), len(r.knownHit), time.Since(r.start).Seconds(), sb)
 
-	if len(r.HarnessErrors) > 0 {
-		for _, e := range r.HarnessErrors {
-			fmt.Fprintf(os.Stderr, "HARNESS-ERROR: %s\n", firstLines(e, 30))
-		}
-		os.Exit(2)
+	for _, e := range r.HarnessErrors {
+		fmt.Fprintf(os.Stderr, "HARNESS-ERROR: %s\n", firstLines(e, 30))
 	}
 	if len(r.viols) > 0 {
-		os.Exit(1)
+		os.Exit(1) // violations were found and printed; harness errors (if any) are listed above
+	}
+	if len(r.HarnessErrors) > 0 {
+		os.Exit(2)
 	}
 	os.Exit(0)
 }
